@@ -1288,3 +1288,106 @@ Proof.
   - rewrite E3, E2', Edels. rewrite <- !app_assoc. reflexivity.
   - rewrite !evs_app, !fold_left_app. exact R3.
 Qed.
+
+(** ** one step of the model *)
+Theorem wstep_D : forall st m t st' ev,
+  AllInv st -> BRel st (m12_b m) -> DRel DNone st m -> wstep st t = (st', ev) ->
+  DRel DNone st' (fold_left m12_step (evs t ev) m).
+Proof.
+  intros st m t st' ev A B R H.
+  destruct A as [[I [P Wf]] W Sl L C Q X Y U S].
+  unfold wstep in H.
+  destruct (enabled st t) eqn:En; cbn [negb] in H;
+    [|inversion H; subst; eapply d_msame; [exact R|apply m12_plain_fold; intros e [<-|[]]; exact Logic.I]].
+  assert (Ht : (t < nthr st)%nat).
+  { unfold enabled in En. apply andb_true_iff in En. destruct En as [En _]. apply Nat.ltb_lt in En. exact En. }
+  assert (It : CInv (core (tick st t))) by (eapply CInv_ceq; [|exact I]; unfold tick; same_core).
+  assert (Pt : pristine (tick st t)) by (unfold tick; prist st t).
+  assert (Wt : wfi (tick st t)) by (eapply wfi_eq; [| | |exact Wf]; reflexivity).
+  assert (Qt : PqInv (tick st t)) by (apply (pq_same st); auto; try reflexivity; intro u; unfold tick; repeat split; thr_simpl).
+  assert (Xt : XInv (tick st t)) by (apply (x_same st); auto; unfold tick; xs).
+  assert (Yt : YInv (tick st t)).
+  { intro u. unfold tick. cbn -[Nat.eqb]. unfold updN, th. destruct (Nat.eqb_spec u t); subst; cbn; apply Y. }
+  assert (Slt : SlInv (tick st t)) by (unfold tick; sl_irr st).
+  assert (Bt : BRel (tick st t) (m12_b m)) by (apply (br_same st); auto; intro u; unfold tick; split; thr_simpl).
+  assert (Rt : DRel DNone (tick st t) m).
+  { apply (d_steq _ st); auto. intro u. unfold tick. repeat split; thr_simpl. }
+  assert (Htt : (t < nthr (tick st t))%nat) by exact Ht.
+  set (s0 := tick st t) in *. clearbody s0. clear En.
+  destruct (tstarted (th s0 t)) eqn:Es0; cbn [negb] in H.
+  - destruct (tcont (th s0 t)) as [|i r] eqn:Ec.
+    + destruct (tscript (th s0 t)) as [|c0 cs] eqn:Es;
+        [inversion H; subst; eapply d_msame; [exact R|apply m12_plain_fold; intros e [<-|[]]; exact Logic.I]|].
+      match type of H with context [begin_cmd ?S0 t ?cc] =>
+        destruct (begin_cmd S0 t cc) as [[st2 ev0] done] eqn:Eb; set (s1 := S0) in * end.
+      assert (Hcur0 : tcur (thr s0 t) = None).
+      { destruct (tcur (thr s0 t)) eqn:E; auto. exfalso. apply (Yt t); [congruence|exact Ec]. }
+      assert (I1 : CInv (core s1)) by (eapply CInv_ceq; [|exact It]; unfold s1; same_core).
+      assert (P1 : pristine s1) by (unfold s1; prist s0 t).
+      assert (W1 : wfi s1) by (eapply wfi_eq; [| | |exact Wt]; reflexivity).
+      assert (Hc1 : tcont (thr s1 t) = []) by (unfold s1; thr_simpl; exact Ec).
+      assert (Hcur1 : tcur (thr s1 t) = Some c0) by (unfold s1; thr_simpl).
+      assert (Hret1 : tret (thr s1 t) = RUnit) by (unfold s1; thr_simpl).
+      assert (Sl1 : SlInv s1) by (unfold s1; sl_irr s0).
+      assert (Hcur1' : tcur (thr s1 t) <> None) by congruence.
+      assert (Q1 : PqInv s1).
+      { unfold th in Ec, Es. apply (pq_idle s0 s1 t [] Qt Ec); try reflexivity.
+        - exact Hc1.
+        - unfold s1. thr_simpl.
+        - unfold s1. thr_simpl.
+        - unfold s1. cbn -[Nat.eqb]. unfold updN, th. rewrite Nat.eqb_refl. cbn. intros _ H0 _.
+          apply (pk s0 Qt t Htt H0). right. rewrite Es. discriminate.
+        - intros j [].
+        - unfold s1. cbn -[Nat.eqb]. unfold updN, th. rewrite Nat.eqb_refl. cbn. apply (pf s0 Qt t). }
+      pose proof (begin_cmd_Pq s1 t c0 st2 ev0 done I1 P1 Q1 Hc1 Htt Hcur1' Eb) as Q2.
+      destruct (begin_cmd_inv s1 t c0 st2 ev0 done I1 P1 W1 Hc1 Htt Eb) as [I2 _].
+      pose proof (begin_cmd_Sl s1 t c0 st2 ev0 done I1 P1 W1 Sl1 Hc1 Htt Eb) as Sl2.
+      pose proof (begin_B s0 (m12_b m) t c0 cs st2 ev0 done Bt Pt Htt Hcur0 Ec Eb) as B2.
+      destruct (begin_cmd_sum s1 t c0 st2 ev0 done P1 Htt Eb) as [_ [Ht2 [Ho2 [Hn _]]]].
+      assert (Ht2' : (t < nthr st2)%nat) by (change (nthr s1) with (nthr s0) in Hn; destruct Hn as [Hn|[Hn _]]; lia).
+      assert (R1 : DRel (pinst t c0) s1 (m12_step m (t, ECmd c0))) by (apply (d_install s0 m t c0 cs Rt Ec)).
+      pose proof (begin_cmd_D s1 _ t c0 st2 ev0 done I1 P1 W1 Sl1 R1 Htt Hc1 Hcur1 Hret1 Eb) as R2.
+      assert (X2 : tfinal (thr st2 main) = []).
+      { pose proof (begin_cmd_X s1 t c0 st2 ev0 done) as BX. destruct (x_main _ Xt) as [Xm _].
+        assert (Hs1 : tstarted (thr s1 t) = true) by (unfold s1; thr_simpl; exact Es0).
+        assert (X1 : XInv s1).
+        { constructor.
+          - intros u. unfold s1. cbn -[Nat.eqb]. unfold updN, th. destruct (Nat.eqb_spec u t); subst; cbn; [congruence|apply (x_idle s0 Xt u)].
+          - unfold s1. cbn -[Nat.eqb]. unfold updN, th. destruct (Nat.eqb_spec main t); subst; cbn; apply (x_main s0 Xt).
+          - intros u. unfold s1. cbn -[Nat.eqb]. unfold updN, th. destruct (Nat.eqb_spec u t); subst; cbn; [unfold th in Es0; congruence|apply (x_fresh s0 Xt u)]. }
+        destruct (x_main _ (BX X1 P1 Htt Hcur1' Hs1 Eb)) as [Xm2 _]. exact Xm2. }
+      destruct (settle_D st2 _ t (ECmd c0 :: ev0) done st' ev (pbegin t c0 done) I2 Sl2 R2) as [tail' [Et' Rf]]; auto.
+      * rewrite m12_b_fold. change (evs t (ECmd c0 :: ev0)) with ((t, ECmd c0) :: evs t ev0) in B2. cbn [fold_left] in B2.
+        rewrite m12_b_step. exact B2.
+      * apply (pf st2 Q2 t).
+      * intros ->. exact X2.
+      * intros ->. destruct c0; reflexivity.
+      * intros v D. subst done. split; [rewrite (begin_cmd_done s1 t c0 st2 ev0 v Htt Eb); exact Hc1|].
+        exists c0. split; [rewrite Ht2; exact Hcur1|]. split; [reflexivity|].
+        intros w ->. cbn [begin_cmd] in Eb. destruct (wreg s1 w); [destruct (wbusy s1 w)|]; inversion Eb; discriminate.
+      * rewrite Et', evs_app, fold_left_app. change (evs t (ECmd c0 :: ev0)) with ((t, ECmd c0) :: evs t ev0). cbn [fold_left]. exact Rf.
+    + destruct (exec_instr s0 t i r) as [st1 ev1] eqn:Ee.
+      pose proof (exec_instr_D s0 m t i r st1 ev1 It Slt Rt Ec Ee) as R1.
+      assert (I1 : CInv (core st1)) by (eapply exec_instr_inv; eauto).
+      pose proof (exec_instr_Sl s0 t i r st1 ev1 It Pt Slt Htt Ec Ee) as Sl1.
+      pose proof (exec_instr_B s0 (m12_b m) t i r st1 ev1 Bt Ec Htt Ee) as B1.
+      destruct (exec_instr_tf _ _ _ _ _ _ Ee) as [Hn1 [Hf _]].
+      destruct (settle_D st1 _ t ev1 None st' ev DNone I1 Sl1 R1) as [tail' [Et' Rf]]; auto.
+      * rewrite m12_b_fold. exact B1.
+      * lia.
+      * destruct (Hf t) as [_ [_ [F _]]]. rewrite F. apply (pf s0 Qt t).
+      * intros ->. destruct (Hf main) as [_ [_ [F _]]]. rewrite F. apply (x_main _ Xt).
+      * intros v D. discriminate D.
+      * rewrite Et', evs_app, fold_left_app. exact Rf.
+  - set (s1 := upd_th s0 t (set_tstarted (th s0 t) true)) in *.
+    assert (I1 : CInv (core s1)) by (eapply CInv_ceq; [|exact It]; unfold s1; same_core).
+    assert (Sl1 : SlInv s1) by (unfold s1; sl_irr s0).
+    assert (B1 : BRel s1 (m12_b m)) by (apply (br_same s0); auto; intro u; unfold s1; split; thr_simpl).
+    assert (R1 : DRel DNone s1 (m12_step m (t, EStart))).
+    { apply (d_msame _ _ m); [|apply m12_plain_step; exact Logic.I]. apply (d_steq _ s0); auto. intro u. unfold s1. repeat split; thr_simpl. }
+    destruct (settle_D s1 _ t [EStart] None st' ev DNone I1 Sl1 R1) as [tail' [Et' Rf]]; auto;
+      try (intros v D; discriminate D).
+    + unfold s1. cbn -[Nat.eqb]. unfold updN, th. rewrite Nat.eqb_refl. cbn. apply (pf s0 Qt t).
+    + intros ->. unfold s1. cbn -[Nat.eqb]. unfold updN, th. rewrite Nat.eqb_refl. cbn. apply (x_main _ Xt).
+    + rewrite Et'. change (evs t ([EStart] ++ tail')) with ((t, EStart) :: evs t tail'). cbn [fold_left]. exact Rf.
+Qed.
